@@ -2,7 +2,7 @@
 //! my fvar/avar encoders → allsorts) against an exact-rational reference.
 
 use crate::engine::{CaseResult, Ctx, Fail, Property, Rec};
-use crate::fontgen::var::{avar_table, fvar_table, fvar_table_gap, AxisModel};
+use crate::fontgen::var::{avar_table, fvar_table, fvar_table_gap, AxisModel, InstanceModel};
 use allsorts::binary::read::ReadScope;
 use allsorts::tables::variable_fonts::avar::AvarTable;
 use allsorts::tables::variable_fonts::fvar::FvarTable;
@@ -226,7 +226,14 @@ pub fn check_case(case: &Case, rec: &mut Rec) -> CaseResult {
             name_id: 256 + i as u16,
         })
         .collect();
-    let fvar_bytes = fvar_table_gap(&axes_model, &[], case.axis_size_extra, case.header_gap);
+    // two named instances (mid-way coordinates; the second carries a PostScript name id): their stored
+    // coordinate tuples are normalised through the library's own tuple iterator further down
+    let inst_coords = |k: i64| -> Vec<i32> { case.axes.iter().map(|a| ((a.min as i64 * (3 - k) + a.max as i64 * (1 + k)) / 4) as i32).collect() };
+    let instances = vec![
+        InstanceModel { subfamily_name_id: 300, coords: inst_coords(0), postscript_name_id: None },
+        InstanceModel { subfamily_name_id: 301, coords: inst_coords(2), postscript_name_id: None },
+    ];
+    let fvar_bytes = fvar_table_gap(&axes_model, &instances, case.axis_size_extra, case.header_gap);
     let identity = vec![(-16384i16, -16384i16), (0, 0), (16384, 16384)];
     let maps: Vec<Vec<(i16, i16)>> = case
         .axes
@@ -399,6 +406,35 @@ pub fn check_case(case: &Case, rec: &mut Rec) -> CaseResult {
         let t: Vec<Fixed> = (0..len).map(|i| Fixed::from_raw(case.axes[i % case.axes.len()].default)).collect();
         if fvar.normalize(t.into_iter(), avar.as_ref()).is_ok() {
             return Err(fail("wrong-length-accepted", format!("tuple of length {} accepted for {} axes", len, case.axes.len())));
+        }
+    }
+    // named-instance tuples handed over as the library's own iterator: same result as the same values from a
+    // Vec; and an iterator that has already yielded some of its values is a tuple of the wrong length
+    for (k, inst) in fvar.instances().enumerate() {
+        let inst = inst.map_err(|e| fail("fvar-parse", format!("instance record {} of the generated fvar does not parse: {:?}", k, e)))?;
+        let stored: Vec<Fixed> = inst.coordinates.iter().collect();
+        if stored.iter().map(|f| f.raw_value()).collect::<Vec<_>>() != instances[k].coords {
+            return Err(fail("instance-coordinates", format!("instance {} coordinates {:?} expected {:?}", k, stored, instances[k].coords)));
+        }
+        evals += 2;
+        let via_iter = fvar.normalize(inst.coordinates.iter(), avar.as_ref()).map(|t| t.iter().map(|v| v.raw_value()).collect::<Vec<_>>());
+        let via_vec = fvar.normalize(stored.iter().copied(), avar.as_ref()).map(|t| t.iter().map(|v| v.raw_value()).collect::<Vec<_>>());
+        match (&via_iter, &via_vec) {
+            (Ok(a), Ok(b)) if a == b => {}
+            _ => return Err(fail("instance-tuple", format!("normalize(instance {} tuple iterator) = {:?}, from the same values in a Vec = {:?}", k, via_iter, via_vec))),
+        }
+        for consumed in 1..=case.axes.len() {
+            let mut it = inst.coordinates.iter();
+            for _ in 0..consumed {
+                it.next();
+            }
+            evals += 1;
+            if fvar.normalize(it, avar.as_ref()).is_ok() {
+                return Err(fail(
+                    "wrong-length-accepted",
+                    format!("instance tuple iterator with {} of {} values already consumed accepted for {} axes", consumed, case.axes.len(), case.axes.len()),
+                ));
+            }
         }
     }
     rec.evaluations(evals.saturating_sub(1));
